@@ -1,3 +1,610 @@
-//! C14 — not built yet.
-pub const BUILT: bool = false;
-pub fn run(_rep: &mut vx::Report) {}
+//! C14 — RAG chunking is a faithful, budget-respecting partition.
+//!
+//! Space (all enumerated, nothing sampled):
+//!  * element sequences of length 1..=3 (`seq-le3`, FULL) and of length exactly 4
+//!    (`seq-len4`, thorough only, sequence FULL × configuration DEV(2)) over 10 element
+//!    symbols × 3 `parent_heading` modes per position;
+//!  * configuration: max_tokens {3,0,1,2,5,100} × merge_adjacent × merge policy ×
+//!    propagate_headings × 4 context modes × 3 token counters × 2 entry points.
+//!
+//! Oracle (from the property text only; nothing is taken from the chunker's code):
+//!  1. partition — walking the input in order, every element is matched exactly once by one
+//!     output element with the same variant and content, or by a run of consecutive output
+//!     elements ("fragments") whose concatenation equals the element's text up to whitespace;
+//!     no output element is left over;
+//!  2. budget — `!is_oversized()` ⇒ `counter.count(chunk.text()) <= max_tokens`;
+//!  3. heading — `heading_context` ∈ {parent_heading of the chunk's source elements} ∪
+//!     {text of a Title in the chunk} (∪ {None} when propagate_headings is off); with a
+//!     single candidate this is equality;
+//!  4. determinism — a second, freshly constructed chunker/graph gives the same chunks;
+//!  5. the RagChunk built from a chunk under the chosen context mode carries the chunk's
+//!     text / flag / heading unchanged and `full_text` is `text` with at most a prefix.
+//!
+//! The two defects known from reading (`chunk_with_graph` drops/reorders elements that are not
+//! children of a title; approves a section by summed per-element counts) get narrow keys that
+//! are produced only when the output equals the exact defective model; anything else that is
+//! wrong in the same cells gets a generic, unlisted key.
+use oxidize_pdf::pipeline::{
+    ContextFormat, ContextMode, Element, ElementData, ElementGraph, ElementMetadata, HybridChunk,
+    HybridChunkConfig, HybridChunker, ImageElementData, KeyValueElementData, MergePolicy, RagChunk,
+    TableElementData, TokenCounter,
+};
+use serde_json::json;
+use std::sync::Arc;
+use vx::{Ctx, Explore, Report};
+
+pub const BUILT: bool = true;
+
+// ------------------------------------------------------------------ token counters
+
+/// Word-count proxy (additive over a whitespace join, and says so).
+struct Words;
+impl TokenCounter for Words {
+    fn count(&self, t: &str) -> usize {
+        t.split_whitespace().count()
+    }
+    fn name(&self) -> &'static str {
+        "vx-words"
+    }
+    fn is_additive_over_whitespace_join(&self) -> bool {
+        true
+    }
+}
+/// ceil(chars / 4): non-additive (two ceilings vs one, plus the separator character).
+struct CharQuarter;
+impl TokenCounter for CharQuarter {
+    fn count(&self, t: &str) -> usize {
+        (t.chars().count() + 3) / 4
+    }
+    fn name(&self) -> &'static str {
+        "vx-chars4"
+    }
+}
+/// words + number of '\n': sensitive to the separator used when joining elements.
+struct WordsNewlines;
+impl TokenCounter for WordsNewlines {
+    fn count(&self, t: &str) -> usize {
+        t.split_whitespace().count() + t.chars().filter(|&c| c == '\n').count()
+    }
+    fn name(&self) -> &'static str {
+        "vx-words+nl"
+    }
+}
+const COUNTER_NAMES: [&str; 3] = ["words", "chars/4", "words+newlines"];
+fn counter(i: usize) -> Arc<dyn TokenCounter> {
+    match i {
+        0 => Arc::new(Words),
+        1 => Arc::new(CharQuarter),
+        _ => Arc::new(WordsNewlines),
+    }
+}
+
+// ------------------------------------------------------------------ alphabet
+
+const T_A: &str = "Alpha";
+const T_B: &str = "Beta Two";
+const SYM_NAMES: [&str; 10] = ["TitleA", "TitleB", "P1w", "P1s", "P2s", "List", "KV", "Table", "Code", "Image"];
+const HEAD_NAMES: [&str; 3] = ["none", "match", "stale"];
+
+fn meta(idx: usize, ph: Option<&str>) -> ElementMetadata {
+    ElementMetadata {
+        page: idx as u32, // position tag, only used to make failure details readable
+        parent_heading: ph.map(|s| s.to_string()),
+        heading_path: ph.map(|s| vec![s.to_string()]).unwrap_or_default(),
+        ..Default::default()
+    }
+}
+fn text_el(s: &str, m: ElementMetadata) -> ElementData {
+    ElementData { text: s.to_string(), metadata: m }
+}
+fn build_element(sym: usize, m: ElementMetadata) -> Element {
+    match sym {
+        0 => Element::Title(text_el(T_A, m)),
+        1 => Element::Title(text_el(T_B, m)),
+        2 => Element::Paragraph(text_el("solo", m)),
+        3 => Element::Paragraph(text_el("One two three.", m)),
+        4 => Element::Paragraph(text_el("Red green blue. Cyan magenta.", m)),
+        5 => Element::ListItem(text_el("- uno dos. tres.", m)),
+        6 => Element::KeyValue(KeyValueElementData { key: "Key".into(), value: "val ue".into(), metadata: m }),
+        7 => Element::Table(TableElementData::new(
+            vec![vec!["a".into(), "b".into()], vec!["c".into(), "d".into()]],
+            m,
+        )),
+        8 => Element::CodeBlock(text_el("let x = 1;\nx += 1;", m)),
+        _ => Element::Image(ImageElementData { alt_text: None, metadata: m }),
+    }
+}
+
+/// Effective parent heading id for (symbol, mode) given the nearest preceding title:
+/// 0 = None, 1 = "Alpha", 2 = "Beta Two".
+fn heading_id(sym: usize, mode: usize, nearest_title: usize) -> usize {
+    // the heading that "matches": a title's own text, otherwise the nearest preceding title
+    let matching = match sym {
+        0 => 1,
+        1 => 2,
+        _ => nearest_title,
+    };
+    match mode {
+        0 => 0,
+        1 => matching,
+        // stale: the *other* title text (a heading that is not the governing one)
+        _ => match matching {
+            1 => 2,
+            _ => 1,
+        },
+    }
+}
+fn heading_text(id: usize) -> Option<&'static str> {
+    match id {
+        0 => None,
+        1 => Some(T_A),
+        _ => Some(T_B),
+    }
+}
+
+// ------------------------------------------------------------------ configuration
+
+const MAXTOK: [usize; 6] = [3, 0, 1, 2, 5, 100];
+const CTX_NAMES: [&str; 4] = ["heading", "none", "contextual-labeled", "contextual-prose"];
+fn ctx_mode(i: usize) -> ContextMode {
+    match i {
+        0 => ContextMode::Heading,
+        1 => ContextMode::None,
+        2 => ContextMode::Contextual(ContextFormat::Labeled),
+        _ => ContextMode::Contextual(ContextFormat::Prose),
+    }
+}
+
+#[derive(Clone, Copy, Hash, PartialEq, Eq, Debug)]
+struct Cfg {
+    max_tokens: usize,
+    merge_adjacent: bool,
+    same_type_only: bool,
+    propagate: bool,
+    ctx: usize,
+    counter: usize,
+    graph: bool,
+}
+impl Cfg {
+    fn lib(&self) -> HybridChunkConfig {
+        HybridChunkConfig {
+            max_tokens: self.max_tokens,
+            overlap_tokens: 0,
+            merge_adjacent: self.merge_adjacent,
+            propagate_headings: self.propagate,
+            merge_policy: if self.same_type_only { MergePolicy::SameTypeOnly } else { MergePolicy::AnyInlineContent },
+            context_mode: ctx_mode(self.ctx),
+        }
+    }
+    fn show(&self) -> String {
+        format!(
+            "max_tokens={} merge_adjacent={} policy={} propagate_headings={} context={} counter={} entry={}",
+            self.max_tokens,
+            self.merge_adjacent,
+            if self.same_type_only { "SameTypeOnly" } else { "AnyInlineContent" },
+            self.propagate,
+            CTX_NAMES[self.ctx],
+            COUNTER_NAMES[self.counter],
+            if self.graph { "chunk_with_graph" } else { "chunk" }
+        )
+    }
+}
+
+fn choose_cfg(c: &mut Ctx, dev: bool) -> Cfg {
+    let mut pick = |label: &'static str, n: usize| if dev { c.choose_dev(label, n) } else { c.choose(label, n) };
+    Cfg {
+        max_tokens: MAXTOK[pick("max_tokens", 6)],
+        merge_adjacent: pick("merge_adjacent", 2) == 0,
+        same_type_only: pick("policy", 2) == 1,
+        propagate: pick("propagate_headings", 2) == 0,
+        ctx: pick("context_mode", 4),
+        counter: pick("counter", 3),
+        graph: pick("entry", 2) == 1,
+    }
+}
+
+// ------------------------------------------------------------------ running the library
+
+fn run_lib(cfg: &Cfg, elements: &[Element]) -> Vec<HybridChunk> {
+    let chunker = HybridChunker::new(cfg.lib()).with_token_counter(counter(cfg.counter));
+    if cfg.graph {
+        let graph = ElementGraph::build(elements);
+        chunker.chunk_with_graph(elements, &graph)
+    } else {
+        chunker.chunk(elements)
+    }
+}
+
+fn same_element(a: &Element, b: &Element) -> bool {
+    use Element::*;
+    match (a, b) {
+        (Title(x), Title(y))
+        | (Paragraph(x), Paragraph(y))
+        | (Header(x), Header(y))
+        | (Footer(x), Footer(y))
+        | (ListItem(x), ListItem(y))
+        | (CodeBlock(x), CodeBlock(y)) => x.text == y.text,
+        (Table(x), Table(y)) => x.rows == y.rows,
+        (Image(x), Image(y)) => x.alt_text == y.alt_text,
+        (KeyValue(x), KeyValue(y)) => x.key == y.key && x.value == y.value,
+        _ => false,
+    }
+}
+
+fn same_output(a: &[HybridChunk], b: &[HybridChunk]) -> bool {
+    a.len() == b.len()
+        && a.iter().zip(b).all(|(x, y)| {
+            x.heading_context == y.heading_context
+                && x.is_oversized() == y.is_oversized()
+                && x.token_estimate() == y.token_estimate()
+                && x.elements().len() == y.elements().len()
+                && x.elements().iter().zip(y.elements()).all(|(e, f)| {
+                    same_element(e, f)
+                        && e.metadata().page == f.metadata().page
+                        && e.metadata().parent_heading == f.metadata().parent_heading
+                })
+        })
+}
+
+fn strip_ws(s: &str) -> String {
+    s.chars().filter(|c| !c.is_whitespace()).collect()
+}
+
+/// Walk `order` (indices into `input`) against the flattened output elements. Returns the
+/// source index of every output element, or a description of the first mismatch.
+fn walk(order: &[usize], input: &[Element], out: &[&Element]) -> Result<Vec<usize>, String> {
+    let mut src = Vec::with_capacity(out.len());
+    let mut j = 0usize;
+    for &i in order {
+        let e = &input[i];
+        if j < out.len() && same_element(out[j], e) {
+            src.push(i);
+            j += 1;
+            continue;
+        }
+        // fragments: consecutive output elements whose concatenation is e's text up to whitespace
+        let target = strip_ws(&e.display_text());
+        let mut acc = String::new();
+        let start = j;
+        let mut done = false;
+        while j < out.len() {
+            let piece = strip_ws(&out[j].display_text());
+            if piece.is_empty() {
+                break;
+            }
+            acc.push_str(&piece);
+            if !target.starts_with(&acc) {
+                break;
+            }
+            src.push(i);
+            j += 1;
+            if acc.len() == target.len() {
+                done = true;
+                break;
+            }
+        }
+        if !done || target.is_empty() {
+            return Err(format!(
+                "input element #{i} ({}) is not matched at output position {start}",
+                describe_el(e)
+            ));
+        }
+    }
+    if j != out.len() {
+        return Err(format!("output has {} element(s) beyond the input (first extra at position {j})", out.len() - j));
+    }
+    Ok(src)
+}
+
+fn describe_el(e: &Element) -> String {
+    format!("{} {:?}", e.type_name(), e.display_text())
+}
+
+/// The element order `chunk_with_graph` is known to produce (KF-C14-1/-2): the preamble, then
+/// per title its children = later non-title elements whose parent_heading is that title's text
+/// (latest title with that text wins). Returns (order, dropped).
+fn graph_defect_model(input: &[Element]) -> (Vec<usize>, Vec<usize>) {
+    let n = input.len();
+    let is_title = |i: usize| matches!(input[i], Element::Title(_));
+    let first_title = (0..n).find(|&i| is_title(i)).unwrap_or(n);
+    let mut order: Vec<usize> = (0..first_title).collect();
+    let mut taken = vec![false; n];
+    for t in first_title..n {
+        if !is_title(t) {
+            continue;
+        }
+        order.push(t);
+        taken[t] = true;
+        let text = input[t].text();
+        for i in t + 1..n {
+            if is_title(i) {
+                if input[i].text() == text {
+                    break; // a later title with the same text takes over
+                }
+                continue;
+            }
+            if input[i].metadata().parent_heading.as_deref() == Some(text) {
+                order.push(i);
+                taken[i] = true;
+            }
+        }
+    }
+    let dropped = (first_title..n).filter(|&i| !taken[i]).collect();
+    (order, dropped)
+}
+
+fn show_input(syms: &[(usize, usize)], input: &[Element]) -> String {
+    syms.iter()
+        .zip(input)
+        .enumerate()
+        .map(|(i, ((s, m), e))| {
+            format!("#{i} {}[{}→{:?}]", SYM_NAMES[*s], HEAD_NAMES[*m], e.metadata().parent_heading)
+        })
+        .collect::<Vec<_>>()
+        .join(", ")
+}
+fn show_output(chunks: &[HybridChunk]) -> String {
+    chunks
+        .iter()
+        .map(|ch| {
+            format!(
+                "{{h={:?} over={} est={} els=[{}]}}",
+                ch.heading_context,
+                ch.is_oversized(),
+                ch.token_estimate(),
+                ch.elements()
+                    .iter()
+                    .map(|e| format!("#{}:{}:{:?}", e.metadata().page, e.type_name(), e.display_text()))
+                    .collect::<Vec<_>>()
+                    .join(", ")
+            )
+        })
+        .collect::<Vec<_>>()
+        .join(" ")
+}
+
+// ------------------------------------------------------------------ the body
+
+fn body(c: &mut Ctx, len_menu: &[usize], dev_cfg: bool) {
+    let len = *c.pick_from("len", len_menu);
+    let mut syms: Vec<(usize, usize)> = Vec::with_capacity(len);
+    let mut input: Vec<Element> = Vec::with_capacity(len);
+    let mut canon: [u8; 8] = [0xff; 8];
+    let mut nearest_title = 0usize;
+    for i in 0..len {
+        let s = c.choose("symbol", 10);
+        let m = c.choose("parent_heading", 3);
+        let hid = heading_id(s, m, nearest_title);
+        if s < 2 {
+            nearest_title = s + 1;
+        }
+        syms.push((s, m));
+        canon[2 * i] = s as u8;
+        canon[2 * i + 1] = hid as u8;
+        input.push(build_element(s, meta(i, heading_text(hid))));
+    }
+    let cfg = choose_cfg(c, dev_cfg);
+    c.input(vx::h64(&(canon, cfg)));
+
+    let ename = if cfg.graph { "graph" } else { "chunk" };
+    let detail = |what: &str, chunks: Option<&[HybridChunk]>| {
+        format!(
+            "{what}; input=[{}] config=[{}] output=[{}]",
+            show_input(&syms, &input),
+            cfg.show(),
+            chunks.map(show_output).unwrap_or_default()
+        )
+    };
+
+    let chunks = match vx::guard(|| run_lib(&cfg, &input)) {
+        Ok(v) => v,
+        Err(p) => {
+            c.fail(format!("C14/{ename}-panic@{}", vx::panic_site(&p)), detail(&p, None));
+            return;
+        }
+    };
+
+    // 4. determinism
+    match vx::guard(|| run_lib(&cfg, &input)) {
+        Ok(again) => {
+            if !same_output(&chunks, &again) {
+                c.fail(
+                    format!("C14/{ename}-two-runs-differ"),
+                    detail(&format!("second run gave [{}]", show_output(&again)), Some(&chunks)),
+                );
+            }
+        }
+        Err(p) => {
+            c.fail(format!("C14/{ename}-panic-on-second-run"), detail(&p, Some(&chunks)));
+        }
+    }
+
+    // 1. partition
+    let flat: Vec<&Element> = chunks.iter().flat_map(|ch| ch.elements().iter()).collect();
+    let identity: Vec<usize> = (0..len).collect();
+    let src: Option<Vec<usize>> = match walk(&identity, &input, &flat) {
+        Ok(s) => Some(s),
+        Err(why) => {
+            let mut recovered = None;
+            if cfg.graph {
+                let (order, dropped) = graph_defect_model(&input);
+                if order != identity {
+                    if let Ok(s) = walk(&order, &input, &flat) {
+                        if !dropped.is_empty() {
+                            c.fail(
+                                "C14/graph-drops-elements-that-are-not-children-of-a-title",
+                                detail(&format!("dropped input elements {dropped:?} ({why})"), Some(&chunks)),
+                            );
+                        }
+                        if order.windows(2).any(|w| w[0] > w[1]) {
+                            c.fail(
+                                "C14/graph-emits-children-of-an-earlier-title-before-later-elements",
+                                detail(&format!("output element order {order:?} ({why})"), Some(&chunks)),
+                            );
+                        }
+                        recovered = Some(s);
+                    }
+                }
+            }
+            if recovered.is_none() {
+                c.fail(format!("C14/{ename}-not-a-partition-of-the-input"), detail(&why, Some(&chunks)));
+            }
+            recovered
+        }
+    };
+
+    // 2. budget
+    let cnt = counter(cfg.counter);
+    let mut any_over = false;
+    for (k, ch) in chunks.iter().enumerate() {
+        any_over |= ch.is_oversized();
+        if ch.is_oversized() {
+            continue;
+        }
+        let cost = cnt.count(&ch.text());
+        if cost > cfg.max_tokens {
+            let summed: usize = ch.elements().iter().map(|e| cnt.count(&e.display_text())).sum();
+            let known = cfg.graph
+                && ch.elements().len() >= 2
+                && matches!(ch.elements()[0], Element::Title(_))
+                && summed <= cfg.max_tokens;
+            let key = if known {
+                "C14/graph-section-approved-by-summed-element-counts".to_string()
+            } else {
+                format!("C14/{ename}-chunk-not-oversized-but-over-budget")
+            };
+            c.fail(
+                key,
+                detail(
+                    &format!("chunk {k}: count(text)={cost} > max_tokens={} (sum of per-element counts={summed}) but is_oversized=false", cfg.max_tokens),
+                    Some(&chunks),
+                ),
+            );
+        }
+    }
+
+    // 3. heading
+    if let Some(src) = &src {
+        let mut pos = 0usize;
+        for (k, ch) in chunks.iter().enumerate() {
+            let n = ch.elements().len();
+            let sources = &src[pos..pos + n];
+            pos += n;
+            let got = ch.heading_context.as_deref();
+            let mut ok = !cfg.propagate && got.is_none();
+            for &i in sources {
+                if input[i].metadata().parent_heading.as_deref() == got {
+                    ok = true;
+                }
+                if let Element::Title(t) = &input[i] {
+                    if got == Some(t.text.as_str()) {
+                        ok = true;
+                    }
+                }
+            }
+            if n == 0 {
+                ok = true; // an empty chunk is reported by nothing else; flag it below
+                c.fail(format!("C14/{ename}-empty-chunk"), detail(&format!("chunk {k} has no elements"), Some(&chunks)));
+            }
+            if !ok {
+                // exact signature of the one known cause: the graph chunker stamps a section's
+                // sub-chunks with the *title's own parent_heading* instead of the title text
+                let title_parent = sources
+                    .first()
+                    .and_then(|_| {
+                        // the governing title of the section = nearest title at or before the first source
+                        (0..=sources[0]).rev().find(|&t| matches!(input[t], Element::Title(_)))
+                    })
+                    .and_then(|t| input[t].metadata().parent_heading.as_deref());
+                let key = if cfg.graph && got.is_some() && got == title_parent {
+                    "C14/graph-heading-is-the-titles-parent-heading-not-the-section-title".to_string()
+                } else {
+                    format!("C14/{ename}-heading-context-not-a-heading-of-the-chunk")
+                };
+                c.fail(
+                    key,
+                    detail(
+                        &format!("chunk {k}: heading_context={got:?} is neither a parent_heading of its elements {sources:?} nor a title in it"),
+                        Some(&chunks),
+                    ),
+                );
+            }
+        }
+    }
+
+    // 5. RagChunk view under the chosen context mode
+    let mode = ctx_mode(cfg.ctx);
+    for (k, ch) in chunks.iter().enumerate() {
+        match vx::guard(|| RagChunk::from_hybrid_chunk_with_mode(k, ch, mode)) {
+            Ok(rc) => {
+                let text = ch.text();
+                let full_ok = match mode {
+                    ContextMode::None => rc.full_text == text,
+                    _ => rc.full_text == text || rc.full_text.ends_with(&format!("\n\n{text}")),
+                };
+                if rc.text != text
+                    || rc.is_oversized != ch.is_oversized()
+                    || rc.heading_context != ch.heading_context
+                    || rc.chunk_index != k
+                    || !full_ok
+                {
+                    c.fail(
+                        "C14/rag-chunk-does-not-carry-the-chunk",
+                        detail(
+                            &format!(
+                                "chunk {k}: RagChunk text={:?} full_text={:?} oversized={} heading={:?}",
+                                rc.text, rc.full_text, rc.is_oversized, rc.heading_context
+                            ),
+                            Some(&chunks),
+                        ),
+                    );
+                }
+            }
+            Err(p) => c.fail(format!("C14/rag-chunk-panic@{}", vx::panic_site(&p)), detail(&p, Some(&chunks))),
+        }
+    }
+
+    // observation class + non-triviality
+    let split = flat.len() != len;
+    let merged = chunks.iter().any(|ch| ch.elements().len() >= 2);
+    if split || merged || any_over {
+        c.nontrivial();
+    }
+    let shape: Vec<(usize, bool, Option<&str>, Vec<u32>)> = chunks
+        .iter()
+        .map(|ch| {
+            (
+                ch.token_estimate(),
+                ch.is_oversized(),
+                ch.heading_context.as_deref(),
+                ch.elements().iter().map(|e| e.metadata().page).collect(),
+            )
+        })
+        .collect();
+    c.outcome(vx::h64(&(canon, shape)));
+    if c.want_sample() {
+        c.sample(json!({"input": show_input(&syms, &input), "config": cfg.show(), "output": show_output(&chunks)}));
+    }
+}
+
+pub fn run(rep: &mut Report) {
+    let thorough = rep.tier.is_thorough();
+    rep.rule(
+        "one case = one element sequence (symbol × parent_heading mode per position) × one full configuration; \
+         distinct inputs are counted on the canonical form (symbol, effective parent heading) + configuration; \
+         a case is non-trivial when the chunker merged ≥2 elements into a chunk, split an element into fragments, \
+         or flagged a chunk oversized",
+    );
+    rep.assume("the three token counters are the harness's own TokenCounter implementations; only the word counter declares itself additive (it is)");
+    rep.assume("fragments are compared with all whitespace removed (any whitespace normalisation is accepted)");
+    rep.assume("heading oracle is the membership form: heading_context must be a parent_heading of one of the chunk's source elements or the text of a title in the chunk (None also accepted when propagate_headings=false)");
+    rep.note(
+        "alphabet",
+        json!({"symbols": SYM_NAMES, "parent_heading_modes": HEAD_NAMES, "max_tokens": MAXTOK, "context_modes": CTX_NAMES, "counters": COUNTER_NAMES,
+               "stale": "the other title's text (never the governing heading); 'match' = own text for a title, nearest preceding title otherwise (None when there is none)"}),
+    );
+    rep.explore("seq-le3", Explore::full(), |c| body(c, &[1, 2, 3], false));
+    if thorough {
+        rep.explore("seq-len4", Explore::dev(2), |c| body(c, &[4], true));
+    }
+}
